@@ -452,6 +452,18 @@ func (p *Plan) opUpdate(kind string, wait bool, timing string) Op {
 	return Op{Kind: OpUpdate, Upd: u, Wait: wait}
 }
 
+// lateNotify dispatches the notifications of blocks the rescan has already
+// reached by height; half of the time a further batch has been written by
+// then, so the stale notifications arrive while the chain is already longer.
+func (p *Plan) lateNotify(nodes []*chaingen.Node) {
+	if p.rng.Intn(2) == 0 {
+		g := p.opGrow(1 + p.rng.Intn(2))
+		p.add(Op{Kind: OpVisible, Nodes: g.Nodes})
+		nodes = append(append([]*chaingen.Node(nil), nodes...), g.Nodes...)
+	}
+	p.add(Op{Kind: OpNotify, Nodes: nodes})
+}
+
 func (p *Plan) randUpdateKind() string {
 	return []string{"addrs", "inputs", "rewind", "addrs+rewind", "addrs+rewind", "inputs+rewind"}[p.rng.Intn(6)]
 }
@@ -487,7 +499,7 @@ func (p *Plan) planCurrent() {
 			p.add(Op{Kind: OpVisible, Nodes: g.Nodes})
 			p.add(Op{Kind: OpSettle})
 			p.add(Op{Kind: OpWaitIdle})
-			p.add(Op{Kind: OpNotify, Nodes: g.Nodes})
+			p.lateNotify(g.Nodes)
 		default:
 			if racing {
 				p.add(p.opUpdate(p.randUpdateKind(), false, "racing"))
@@ -528,7 +540,7 @@ func (p *Plan) planCatchup() {
 			p.add(Op{Kind: OpRelease})
 			p.add(Op{Kind: OpSettle})
 			p.add(Op{Kind: OpWaitIdle})
-			p.add(Op{Kind: OpNotify, Nodes: g.Nodes})
+			p.lateNotify(g.Nodes)
 		case x < 9:
 			// Fork anywhere from below the start block up to just under the
 			// tip: below / at / above the rescan's position is measured at
